@@ -383,8 +383,9 @@ class BayesianProblem(object):
         print("Make sure enough samples are drawn for convergence.")
         print("")
 
-        # Create a copy of self
+        # Create a copy of self (with its own target, such that the likelihood of self is kept)
         prior_problem = copy(self)
+        prior_problem._target = copy(self._target)
 
         # Set likelihood to constant
         model = cuqi.model.LinearModel(lambda x: 0*x, lambda y: 0*y, self.model.range_geometry, self.model.domain_geometry)
